@@ -8,7 +8,7 @@ sys.path.insert(0, os.path.dirname(os.path.abspath(__file__)))
 import mutate
 
 ALL = ["C01", "C02", "C03", "C04", "C05", "C06", "C07", "C08", "C09", "C10", "C11", "C12", "C13", "C14", "C15", "C16", "C17", "C18", "C19", "C20", "C21", "C22",
-       "C23", "C24", "C25", "C26", "C28", "C29", "C30"]
+       "C23", "C24", "C25", "C26", "C27", "C28", "C29", "C30"]
 
 
 def sh(cmd, cwd, timeout=3600):
